@@ -4,7 +4,7 @@ import CanvasModel.C19
 
 `checkDash` belongs to properties C05/C15; the C19 model takes it as the field `Ops.checkDash`.
 This file provides the executable instance for the driver.  It is the value-semantics transcription
-used (and tied bit-exactly to the real code) by the C15 model, re-stated over `C19.Arith` so that the
+used (and tied bit-exactly to the real code) by the C15 model (state of /repo 0981ba9), re-stated over `C19.Arith` so that the
 C19 driver does not depend on another property's files.  No C19 theorem looks inside it.
 -/
 namespace Canvas.C19
@@ -84,22 +84,23 @@ def dashStart (off : α) (d : List α) : Option (Nat × α) :=
     if a.lt off a.zero then some (i, a.neg (a.add (d.foldl a.add a.zero) off))
     else some (i, a.neg off)
 
-/-- Path.checkDash as a function of the path length -/
-def checkDashImpl (off : α) (d : List α) (len : α) : List α × Bool :=
+/-- Path.checkDash as a function of the path length (`fmod` = math.Mod), as of /repo 0981ba9: the pattern
+is dropped (solid stroke) when the first dash covers the whole path, the stroke when the first space does -/
+def checkDashImpl (fmod : α → α → α) (off : α) (d : List α) (len : α) : List α × Bool :=
   let (off, d) := dashCanonical a off d
-  match d with
-  | [] => ([], true)
-  | [x] =>
-    if a.beq x a.zero then ([], false) else
-    match dashStart a off d with
+  if d.isEmpty then ([], true)
+  else if d.length == 1 && a.beq (d.getD 0 a.zero) a.zero then ([], false)
+  else
+    -- dashes and spaces alternate: an odd pattern repeats after twice its length (as in Dash)
+    let dd := if d.length % 2 == 1 then d ++ d else d
+    let total := dd.foldl a.add a.zero
+    let off := fmod off total
+    let off := if a.lt off a.zero then a.add off total else off
+    match dashStart a off dd with
     | none => ([], false)
     | some (i, pos) =>
-      if a.le len (a.sub (d.getD i a.zero) pos) then ([], i % 2 == 0) else (d, true)
-  | _ =>
-    match dashStart a off d with
-    | none => ([], false)
-    | some (i, pos) =>
-      if a.le len (a.sub (d.getD i a.zero) pos) then ([], i % 2 == 0) else (d, true)
+      -- pos is minus the part of dd[i] that lies before the start
+      if a.le len (a.add (dd.getD i a.zero) pos) then ([], i % 2 == 0) else (d, true)
 end Dash
 
 end Canvas.C19
